@@ -111,7 +111,8 @@ pub fn toc_diff(a: &Path, b: &Path) -> Value {
 
 fn frame_obs(mem: &mut Memvid, f: &Frame, content: bool) -> Value {
     let mut v = json!({"id": f.id, "uri": f.uri, "status": format!("{:?}", f.status), "role": format!("{:?}", f.role), "parent": f.parent_id,
-        "ts": f.timestamp, "supersedes": f.supersedes, "superseded_by": f.superseded_by, "title": f.title, "track": f.track, "tags": f.tags, "labels": f.labels});
+        "ts": f.timestamp, "supersedes": f.supersedes, "superseded_by": f.superseded_by, "title": f.title, "track": f.track, "tags": f.tags, "labels": f.labels,
+        "enc": format!("{:?}", f.canonical_encoding)});
     if content && f.status == FrameStatus::Active {
         v["payload"] = match mem.frame_canonical_payload(f.id) {
             Ok(b) => json!({"len": b.len(), "b3": hex_digest(&b)}),
@@ -125,6 +126,15 @@ fn frame_obs(mem: &mut Memvid, f: &Frame, content: bool) -> Value {
                     Err(e) => json!({"err": format!("io:{}", e.kind())}),
                 }
             }
+            Err(e) => json!({"err": crate::drive::hist::err_kind(&e)}),
+        };
+        v["text"] = match mem.frame_text_by_id(f.id) {
+            Ok(t) => json!({"len": t.len(), "b3": hex_digest(t.as_bytes())}),
+            Err(e) => json!({"err": crate::drive::hist::err_kind(&e)}),
+        };
+        v["embedding"] = match mem.frame_embedding(f.id) {
+            Ok(Some(e)) => json!({"dim": e.len(), "b3": hex_digest(&e.iter().flat_map(|x| x.to_le_bytes()).collect::<Vec<u8>>())}),
+            Ok(None) => Value::Null,
             Err(e) => json!({"err": crate::drive::hist::err_kind(&e)}),
         };
     }
@@ -156,12 +166,25 @@ pub fn observe(mem: &mut Memvid, queries: &[String], deep: bool) -> Value {
                 Err(e) => json!({"q": q, "err": crate::drive::hist::err_kind(&e)}),
             });
         }
+        // the same words through the default path (sketch pre-filter on)
+        for q in queries.iter().take(4) {
+            let req = SearchRequest { query: q.clone(), top_k: 50, snippet_chars: 80, uri: None, scope: None, cursor: None, as_of_frame: None, as_of_ts: None, no_sketch: false, acl_context: None, acl_enforcement_mode: Default::default() };
+            sr.push(match mem.search(req) {
+                Ok(r) => { let mut ids: Vec<u64> = r.hits.iter().map(|h| h.frame_id).collect(); ids.sort_unstable(); ids.dedup(); json!({"q": q, "sketch": true, "frames": ids}) }
+                Err(e) => json!({"q": q, "sketch": true, "err": crate::drive::hist::err_kind(&e)}),
+            });
+        }
         out["searches"] = json!(sr);
         out["stats"] = match mem.stats() {
             Ok(s) => json!({"frames": s.frame_count, "active": s.active_frame_count, "seq_no": s.seq_no, "vectors": s.vector_count}),
             Err(e) => json!({"err": crate::drive::hist::err_kind(&e)}),
         };
         out["cards"] = json!(mem.memory_card_count());
+        out["card_list"] = json!(mem.memories().cards().iter().map(|c| format!("{}|{}|{}|{}", c.entity, c.slot, c.value, c.source_frame_id)).collect::<Vec<_>>());
+        out["vector"] = match mem.search_vec(&[3.0, 1.0, 0.5, 0.25], 8) {
+            Ok(h) => json!(h.iter().map(|x| (x.frame_id, x.distance.to_bits())).collect::<Vec<_>>()),
+            Err(e) => json!({"err": crate::drive::hist::err_kind(&e)}),
+        };
         out["ticket"] = { let t = mem.current_ticket(); json!({"seq_no": t.seq_no, "capacity": t.capacity_bytes, "issuer": t.issuer}) };
     }
     out
@@ -209,6 +232,7 @@ pub fn main() {
                 println!("{}", serde_json::to_string(&raw_layout(Path::new(p))).unwrap());
             }
         }
+        "fault" => crate::fault::main(&args),
         "tocdiff" => {
             println!("{}", serde_json::to_string(&toc_diff(Path::new(&args.pos[1]), Path::new(&args.pos[2]))).unwrap());
         }
